@@ -225,10 +225,11 @@ static void finish_scripts(round_t *r) {
 static void print_round(round_t *r, int completed_expected, int stuck) {
 	int nn = atomic_load(&r->nnotif); if (nn > MAXNOT) nn = MAXNOT;
 	printf("R %d kind=%d subm=%d flags=%lu hold=%d inv=%d body=%d performed=%d cancels=%d wz=%d wnz=%d wearly=%d tczero=%d "
-			"expect_done=%d stuck=%d finalflags=%u nnotif=%d runs=", r->k, r->kind, r->subm, r->flags, r->hold,
+			"expect_done=%d stuck=%d finalflags=%u finalqueue=%d nnotif=%d runs=", r->k, r->kind, r->subm, r->flags, r->hold,
 			atomic_load(&r->invocations), atomic_load(&r->body_runs), performed(r), atomic_load(&r->cancels),
 			atomic_load(&r->wait_zero), atomic_load(&r->wait_nonzero), atomic_load(&r->wait_early),
-			atomic_load(&r->tc_zero_after_cancel), completed_expected, stuck, r->dbpd->dbpd_atomic_flags, nn);
+			atomic_load(&r->tc_zero_after_cancel), completed_expected, stuck, r->dbpd->dbpd_atomic_flags,
+			r->dbpd->dbpd_queue != NULL, nn);
 	for (int i = 0; i < nn; i++) printf("%d,", atomic_load(&r->notif_runs[i]));
 	printf("\n");
 }
@@ -370,8 +371,8 @@ static void round_perform(round_t *r) {
 	dispatch_block_perform((dispatch_block_flags_t)r->flags, blk);
 	dv_user(DVU_RET, 2 * r->k, (unsigned long long)(atomic_load(&r->body_runs) - before), 0);
 	printf("R %d kind=2 subm=-2 flags=%lu hold=0 inv=%d body=%d performed=%d cancels=%d wz=0 wnz=0 wearly=0 tczero=0 "
-			"expect_done=0 stuck=0 finalflags=%u nnotif=0 runs=\n", r->k, r->flags, n, before, pd->dbpd_performed, preset_cancel,
-			pd->dbpd_atomic_flags);
+			"expect_done=0 stuck=0 finalflags=%u finalqueue=%d nnotif=0 runs=\n", r->k, r->flags, n, before, pd->dbpd_performed, preset_cancel,
+			pd->dbpd_atomic_flags, pd->dbpd_queue != NULL);
 	printf("P %d public_perform_body_runs=%d group=%p\n", r->k, atomic_load(&r->body_runs) - before, (void *)pd->dbpd_group);
 }
 
